@@ -332,6 +332,11 @@ def orient_correspondence(ctx, rng):
         m, info = meshes.gen_first_order(rng, kind)
         if m.nelements > 40:
             continue
+        if kind == "tri" and rng.random() < 0.5:
+            # cells kept in the order given (sort_t=False): the sign rules compare the vertex numbers as stored
+            t_un = meshes.local_reorder(rng, "tri", m.t.astype(np.int64)).astype(np.int32)
+            m = type(m)(m.p, np.ascontiguousarray(t_un), sort_t=False)
+            ctx.count("orient:tri-sort_t=False")
         mp = m.mapping()
         nt = m.nelements
         names = {"tri": ["ElementTriN1", "ElementTriN2", "ElementTriRT1", "ElementTriBDM1"],
